@@ -177,3 +177,175 @@ pub fn main(args: &[String]) -> i32 {
     }
     0
 }
+
+// ---------------------------------------------------------------------------------------------
+// forced schedules: behaviours of spec/PuritySched.tla imposed on the real threads through the gates
+
+#[derive(Clone, Copy, PartialEq, Debug)]
+enum Ts {
+    Running,
+    Parked(&'static str),
+    Granted,
+    Finished,
+}
+static FORCED: AtomicBool = AtomicBool::new(false);
+static CTRL: Mutex<Vec<Ts>> = Mutex::new(Vec::new());
+static CV: std::sync::Condvar = std::sync::Condvar::new();
+
+fn slot(tag: u32) -> usize {
+    if tag == 99 { 0 } else { tag as usize }
+}
+
+/// a gate of a scheduled thread: park until the controller grants it
+fn park(name: &'static str) {
+    let t = TAG.with(|c| c.get());
+    if t == 0 || !FORCED.load(Ordering::SeqCst) {
+        return;
+    }
+    let i = slot(t);
+    let mut g = CTRL.lock().unwrap_or_else(|e| e.into_inner());
+    g[i] = Ts::Parked(name);
+    CV.notify_all();
+    while g[i] != Ts::Granted && FORCED.load(Ordering::SeqCst) {
+        g = CV.wait(g).unwrap_or_else(|e| e.into_inner());
+    }
+    g[i] = Ts::Running;
+    CV.notify_all();
+}
+
+fn observer_forced(action: &'static str, phase: u8, present: bool, suppress: usize, entries: usize) {
+    if phase == 0 {
+        park(action);
+    } else {
+        observer(action, phase, present, suppress, entries);
+    }
+}
+
+/// wait until thread i is parked or finished (or the time is up: it is blocked on another thread, e.g. in the once-cell)
+fn settle(i: usize, ms: u64) -> Ts {
+    let deadline = std::time::Instant::now() + std::time::Duration::from_millis(ms);
+    let mut g = CTRL.lock().unwrap_or_else(|e| e.into_inner());
+    loop {
+        match g[i] {
+            Ts::Parked(_) | Ts::Finished => return g[i],
+            _ => {}
+        }
+        let now = std::time::Instant::now();
+        if now >= deadline {
+            return g[i];
+        }
+        g = CV.wait_timeout(g, deadline - now).unwrap_or_else(|e| e.into_inner()).0;
+    }
+}
+
+fn grant(i: usize) {
+    let mut g = CTRL.lock().unwrap_or_else(|e| e.into_inner());
+    g[i] = Ts::Granted;
+    CV.notify_all();
+    drop(g);
+}
+
+/// args: <schedule.json {"steps": [[thread, step], ..], "inputs": [{"id","src","dialect"}, ..], "nc": n, "ni": n}> <out.ndjson> <scenario>
+pub fn main_sched(args: &[String]) -> i32 {
+    let sch: J = serde_json::from_str(&std::fs::read_to_string(&args[0]).expect("schedule")).expect("json");
+    let inputs: Vec<J> = sch["inputs"].as_array().cloned().unwrap_or_default();
+    let nc = sch["nc"].as_u64().unwrap_or(2) as usize;
+    let ni = sch["ni"].as_u64().unwrap_or(2) as usize;
+    let steps: Vec<(usize, String)> = sch["steps"].as_array().map(|a| a.iter().map(|s| (s[0].as_u64().unwrap_or(0) as usize, s[1].as_str().unwrap_or("").to_string())).collect()).unwrap_or_default();
+    let nd = steps.iter().filter(|(t, s)| *t == 0 && s == "start").count();
+    let scenario = args[2].clone();
+    let mut out = std::io::BufWriter::new(std::fs::File::create(&args[1]).expect("out"));
+    #[cfg(prql_verif)]
+    prqlc::debug::verif::set_observer(Some(observer_forced));
+    #[cfg(not(prql_verif))]
+    let _ = observer_forced;
+    JITTER.store(false, Ordering::Relaxed);
+    *CTRL.lock().unwrap() = vec![Ts::Running; nc + 1];
+    FORCED.store(true, Ordering::SeqCst);
+    let results: Mutex<Vec<J>> = Mutex::new(vec![]);
+    let (mut realised, mut skipped, mut blocked) = (0usize, 0usize, 0usize);
+    std::thread::scope(|sc| {
+        sc.spawn(|| {
+            TAG.with(|c| c.set(99));
+            for _ in 0..nd {
+                prqlc::debug::log_start();
+                let _ = prqlc::debug::log_finish();
+            }
+            let mut g = CTRL.lock().unwrap_or_else(|e| e.into_inner());
+            g[0] = Ts::Finished;
+            CV.notify_all();
+        });
+        for t in 1..=nc {
+            let inputs = &inputs;
+            let results = &results;
+            let scenario = &scenario;
+            sc.spawn(move || {
+                TAG.with(|c| c.set(t as u32));
+                for k in 0..ni {
+                    park("CompileBegin");
+                    let inp = &inputs[(k + t) % inputs.len()];
+                    let (kind, text) = match api::compile(inp["src"].as_str().unwrap_or(""), inp["dialect"].as_str()) {
+                        api::Outcome::Ok(s) => ("sql", s),
+                        api::Outcome::Err(e) => ("err", e.inner.iter().map(|m| format!("{}|{:?}", m.reason, m.hints)).collect::<Vec<_>>().join(";")),
+                        api::Outcome::Panic { msg, file, line } => (panic_kind(&file, &msg), format!("{file}:{line}:{msg}")),
+                    };
+                    results.lock().unwrap().push(json!({"event":"Result","input":format!("{}#compile", inp["id"].as_str().unwrap_or("?")),
+                        "out":hash(&text),"kind":kind,"scenario":scenario,"thread":t,"text":text.chars().take(300).collect::<String>()}));
+                }
+                let mut g = CTRL.lock().unwrap_or_else(|e| e.into_inner());
+                g[t] = Ts::Finished;
+                CV.notify_all();
+            });
+        }
+        // the controller
+        let pass = |i: usize, want: &[&str]| -> bool {
+            match settle(i, 150) {
+                Ts::Parked(n) if want.contains(&n) => { grant(i); let _ = settle(i, 150); true }
+                _ => false,
+            }
+        };
+        for (t, step) in &steps {
+            let i = *t;
+            let ok = match step.as_str() {
+                "none" => true,
+                "entries" => {
+                    let mut any = pass(i, &["CompileBegin"]);
+                    while pass(i, &["LogEntry"]) { any = true; }
+                    any
+                }
+                "acquire" => pass(i, &["SuppressAcquire"]),
+                "release" => pass(i, &["SuppressRelease"]),
+                "stdinit" => { let a = pass(i, &["StdInit"]); if a { let _ = pass(i, &["SuppressAcquire"]); } a }
+                "start" => pass(i, &["LogStart"]),
+                "finish" => pass(i, &["LogFinish"]),
+                "run" => {
+                    // to the end of this compile: everything up to the next CompileBegin
+                    let mut any = false;
+                    loop {
+                        match settle(i, 150) {
+                            Ts::Parked(n) if n != "CompileBegin" => { grant(i); any = true; }
+                            Ts::Parked(_) | Ts::Finished => break,
+                            _ => { blocked += 1; break }
+                        }
+                    }
+                    any || true
+                }
+                _ => false,
+            };
+            if ok { realised += 1 } else { skipped += 1 }
+        }
+        // let everything run to its end
+        FORCED.store(false, Ordering::SeqCst);
+        CV.notify_all();
+    });
+    writeln!(out, "{}", json!({"event":"Run","scenario":scenario})).unwrap();
+    let evs = EVENTS.lock().map(|g| g.clone()).unwrap_or_default();
+    for (s, t, a, p, su, en) in evs {
+        writeln!(out, "{}", json!({"event":"Sched","seq":s,"thread":t,"action":a,"present":p,"suppress":su,"entries":en})).unwrap();
+    }
+    for r in results.lock().unwrap().iter() {
+        writeln!(out, "{}", r).unwrap();
+    }
+    eprintln!("sched: {} steps, {} realised, {} skipped, {} blocked", steps.len(), realised, skipped, blocked);
+    0
+}
